@@ -698,6 +698,9 @@ def run(ck, fb, tier):
         if cfg == "C":
             from . import c20
             c20.rule_h1_h2(K.RuleProxy(ck, {"C20-H1": "C01-W", "C20-H1c": "C01-W", "C20-H2": None}), prog)
+        if cfg == "E" and prog.fn("OUR_strndup") is not None:
+            from . import boundsrules as BR
+            BR.check_function(K.RuleProxy(ck, {}, default="C01-W"), prog, "C01-W", "OUR_strndup")
         if cfg == "A" and tier == "thorough":
             from . import boundsrules as BR
             for name in ("SCPI_NumberToStr", "SCPI_FloatToStr", "SCPI_DoubleToStr", "SCPI_ParamCopyText",
